@@ -247,3 +247,46 @@ package arvados
 //@ func SignManifest$1 property C07
 //@   calls SignLocator#1: requires matches(tok, `(?s)^[0-9a-f]{32}.*`) && $1 == apiToken && $2 == expiry && $3 == ttl && $4 == permissionSecret
 //@   ensures !matches(tok, `(?s)^[0-9a-f]{32}.*`) ==> result == tok
+
+// --------------------------------------------------- C08: handle-level gating
+//@ iface inode.Read
+//@   modifies mem:byte
+//@ iface inode.Write
+//@   modifies all
+//@ iface inode.Size
+//@   modifies nothing
+//@ iface inode.RLock
+//@   modifies nothing
+//@ iface inode.RUnlock
+//@   modifies nothing
+//@ iface inode.Lock
+//@   modifies nothing
+//@ iface inode.Unlock
+//@   modifies nothing
+
+// Read through a handle that was not opened for reading fails with
+// ErrWriteOnlyMode and reads nothing; otherwise the inode is read at the
+// handle's own pointer and the pointer it returns is stored back.
+//@ func filehandle.Read property C08
+//@   ensures !old(f.readable) ==> n == 0 && err == ErrWriteOnlyMode && f.ptr == old(f.ptr)
+//@   calls inode.Read#1: requires old(f.readable) && $0 == p && $1 == f.ptr
+
+// Write through a read-only handle fails with ErrReadOnlyFile; in append mode
+// the write pointer is placed exactly at the end of the file.
+//@ func filehandle.Write property C08
+//@   ensures !old(f.writable) ==> n == 0 && err == ErrReadOnlyFile && f.ptr == old(f.ptr)
+//@   calls inode.Write#1: requires old(f.writable) && $0 == p && $1 == f.ptr
+//@   calls inode.Write#1: requires f.append && istype(f.inode, *filenode) ==> $1.off == unbox(f.inode, *filenode).fileinfo.size && $1.segmentIdx == len(unbox(f.inode, *filenode).segments) && $1.segmentOff == 0 && $1.repacked == unbox(f.inode, *filenode).repacked
+
+// Seek: the new offset follows whence; a negative result is an error and
+// leaves the handle where it was; a changed offset invalidates the cached
+// segment position (repacked = -1 forces a fresh seek).
+//@ func filehandle.Seek property C08
+//@   ghost size0 int64 = 0
+//@   calls inode.Size#1: set size0 = $r
+//@   ensures err == nil && whence == 0 ==> pos == off && off >= 0
+//@   ensures err == nil && whence == 1 ==> pos == old(f.ptr.off) + off
+//@   ensures err == nil && whence == 2 ==> pos == size0 + off
+//@   ensures err != nil ==> err == ErrNegativeOffset && f.ptr == old(f.ptr) && pos == old(f.ptr.off)
+//@   ensures err == nil ==> pos >= 0 && f.ptr.off == pos && (pos != old(f.ptr.off) ==> f.ptr.repacked == 0 - 1)
+//@   ensures whence == 0 && off < 0 ==> err != nil
